@@ -225,7 +225,10 @@ copy_vs(int32 infile_id, int32 outfile_id, int32 tag, /* tag of input VS */
         goto out;
     }
     for (int i = 0; i < n_attrs; i++) {
-        copy_vdata_attribute(vdata_id, vdata_out, -1, i);
+        if (copy_vdata_attribute(vdata_id, vdata_out, -1, i) < 0) {
+            ret = -1;
+            goto out;
+        }
     }
 
     /*-------------------------------------------------------------------------
